@@ -35,7 +35,9 @@ def _check_tuple(ctx, t):
     ctx.require(isinstance(M, np.ndarray) and M.shape == (2 * n, 2 * n) and M.dtype == np.uint8 and M.max() <= 1, 'image is a uint8 0/1 matrix',
                 f'{t}')
     ctx.require(_is_symplectic(M), 'image symplectic', f'{t}')
+    M_before = M.copy()
     back = spf2.to_int_tuple(M)
+    ctx.require(np.array_equal(M, M_before), 'to_int_tuple does not modify the matrix', f'{t}')
     ctx.require(tuple(int(x) for x in back) == tuple(t), 'round trip', f'{t} -> {back}')
     Mi = spf2.inverse(M)
     I = np.eye(2 * n, dtype=np.int64)
